@@ -1,6 +1,6 @@
 (* C09 - Task factories: inherited context, exact handle set, teardown waits, errors kept. *)
 From Coq Require Import List Bool Arith.
-From Asphalt Require Import Conc.Factory Conc.FactoryProofs.
+From Asphalt Require Import Conc.Factory Conc.FactoryProofs Gen.Gen_service.
 Import ListNotations.
 
 (* at every point of every run (any spawns, segments, cancellations, teardown moment, handler
@@ -58,3 +58,15 @@ Print Assumptions C09_handler.
 Theorem C09_no_handler : forall s k b e, b_end b = ERaise e -> ph (fst (finish_task None s k b)) = Crashed e.
 Proof. exact no_handler_propagates. Qed.
 Print Assumptions C09_no_handler.
+
+(* what the translator read from run_background_task on this run: the task's cancel scope encloses its own
+   context, whose parent is the context handed in (the factory's, not the spawner's); only an Exception goes to
+   the handler, which is consulted iff there is one, and the exception is swallowed iff it returns something
+   truthy; the finished event is set in a finally clause after the context has been left *)
+Theorem C09_source_shape :
+  bg_scope_encloses_context = true /\ bg_context_parent_is_given = true /\
+  bg_started_before_target_without_status = true /\ bg_handler_for_exceptions_only = true /\
+  bg_handler_consulted_iff_given = true /\ bg_swallowed_iff_truthy = true /\
+  bg_finished_in_finally_after_context = true.
+Proof. exact background_task_source_shape. Qed.
+Print Assumptions C09_source_shape.
